@@ -1,0 +1,31 @@
+//go:build verif
+
+// Contracts for the deductive verifier in /verif (govc); comments only.
+
+package util
+
+// One frame per message: a single Write of 4+Size() bytes whose first four are
+// the big-endian size.
+//@ func protoStream.SendMsg
+//@   property C20
+//@   safety +overflow
+//@   requires c != nil && isptr(m, types.Packet) && asptr(m, types.Packet) != nil
+//@   effects IoWrite
+//@   ensures one_write: result == nil ==> cnt(IoWrite) == old(cnt(IoWrite)) + 1
+//@   ensures atmost: cnt(IoWrite) <= old(cnt(IoWrite)) + 1
+//@   at call io.Writer.Write: frame: len(b) == size + 4 && size >= 0 && b[0] == byte(uint32(size) >> 24) && b[1] == byte(uint32(size) >> 16) && b[2] == byte(uint32(size) >> 8) && b[3] == byte(uint32(size))
+
+// Reads exactly one frame: 4 bytes of length, then exactly that many bytes into
+// a buffer of exactly that length, then decodes. A zero-length frame is an empty
+// message and leaves the receiver's message untouched. An error is returned only
+// when reading or decoding failed (in particular frames larger than the pooled
+// buffer are accepted).
+//@ func protoStream.RecvMsg
+//@   property C20
+//@   requires c != nil && isptr(m, types.Packet) && asptr(m, types.Packet) != nil
+//@   modifies *asptr(m, types.Packet), type types.Stat, array byte, array string, maps string []byte, global bufPool, type []byte
+//@   effects ReadFullRes UnmarshalRes
+//@   ensures error_only_from_io_or_decode: result != nil ==> (cnt(ReadFullRes) > old(cnt(ReadFullRes)) && arg(ReadFullRes, 1) != nil) || (cnt(UnmarshalRes) > old(cnt(UnmarshalRes)) && arg(UnmarshalRes, 0) != nil)
+//@   ensures header_first: cnt(ReadFullRes) >= old(cnt(ReadFullRes)) + 1
+//@   ensures empty_frame_untouched: cnt(UnmarshalRes) == old(cnt(UnmarshalRes)) ==> asptr(m, types.Packet).Type == old(asptr(m, types.Packet).Type) && asptr(m, types.Packet).ID == old(asptr(m, types.Packet).ID) && asptr(m, types.Packet).Stat == old(asptr(m, types.Packet).Stat) && len(asptr(m, types.Packet).Data) == old(len(asptr(m, types.Packet).Data))
+//@   at call unmarshaler.Unmarshal: exact_frame: len(buf) == int(length) && length != 0 && cnt(ReadFullRes) == old(cnt(ReadFullRes)) + 2 && arg(ReadFullRes, 0) == int(length) && arg(ReadFullRes, 1) == nil
